@@ -1,14 +1,832 @@
-//! stub
-use crate::checks::{RunRecord, Tier};
-use crate::exec::Scratch;
+//! The signing-ceremony scenario (C04, C09, C05): one layout or link body, m signers of mixed key
+//! types, signature "messages" over a faulty channel, a wire trip, verification against an
+//! authorized set and a threshold under injected hash schedules and permutations.
+
+use crate::checks::{site_of, RunRecord, Tier, Trace, Violation};
+use crate::exec;
+use crate::gen::{self, GenOpts};
+use crate::keys::{self, KeyKind, KeySpec};
 use crate::oracle::Finding;
+use crate::prng::{Digest, Rng};
+use crate::simio::SimWriter;
+use crate::world::*;
+use in_toto::crypto::{PrivateKey, PublicKey};
+use in_toto::interchange::{DataInterchange, Json};
+use in_toto::models::{Metablock, MetablockBuilder, MetadataWrapper};
 use serde::{Deserialize, Serialize};
+use serde_json::{json, Value};
+use std::collections::{BTreeMap, BTreeSet};
 
 #[derive(Clone, Debug, Serialize, Deserialize, PartialEq)]
-pub struct CeremonyTrace {}
-pub fn run_c04(_t: Tier, _s: u64, _i: u64, _r: &mut RunRecord) {}
-pub fn run_c09(_t: Tier, _s: u64, _i: u64, _r: &mut RunRecord) {}
-pub fn run_c05(_t: Tier, _s: u64, _i: u64, _r: &mut RunRecord) {}
-pub fn replay(_p: &str, _t: &CeremonyTrace, _r: &mut RunRecord) -> Vec<Finding> { vec![] }
-pub fn minimise(_p: &str, _c: &str, t: &CeremonyTrace) -> (CeremonyTrace, bool) { (t.clone(), false) }
-#[allow(dead_code)] fn _u(_: &Scratch) {}
+pub enum BodySpec {
+    Link(LinkSpec),
+    Layout(LayoutSpec),
+}
+
+#[derive(Clone, Debug, Serialize, Deserialize, PartialEq)]
+pub enum Wire {
+    Compact,
+    Pretty,
+    /// `Json::to_writer` through a simulated writer (chunking, EINTR)
+    Writer { chunked: bool, eintr_pct: u64 },
+}
+
+#[derive(Clone, Debug, Serialize, Deserialize, PartialEq)]
+pub enum Mode {
+    /// threshold counting, both directions
+    C04,
+    /// round trip must verify; substitutions must not
+    C09,
+    /// a post-signing edit: parsed value unequal => no signature verifies
+    C05,
+}
+
+#[derive(Clone, Debug, Serialize, Deserialize, PartialEq)]
+pub struct CeremonyTrace {
+    pub mode: Mode,
+    pub keys: Vec<KeySpec>,
+    pub body: BodySpec,
+    pub signers: Vec<usize>,
+    /// signers (indices into `signers`) that sign a second time (randomised schemes give a second, different valid signature)
+    pub resign: Vec<usize>,
+    pub builder_path: bool,
+    pub wire: Wire,
+    pub ops: Vec<DocOp>,
+    pub authorized: Vec<usize>,
+    pub threshold: u32,
+    pub hash_seeds: Vec<u64>,
+    pub perm_seeds: Vec<u64>,
+    pub io_seed: u64,
+    pub labels: Vec<String>,
+}
+
+pub fn body_value(b: &BodySpec, keys: &[KeySpec]) -> Value {
+    match b {
+        BodySpec::Link(l) => link_value(l),
+        BodySpec::Layout(l) => layout_value(l, keys),
+    }
+}
+
+/// Sign through one of the two construction paths. Returns the block.
+fn construct(signed: &Value, signers: &[usize], keyspecs: &[KeySpec], builder_path: bool) -> Result<Metablock, String> {
+    let text = serde_json::to_string(signed).map_err(|e| e.to_string())?;
+    let meta: MetadataWrapper = MetadataWrapper::try_from_bytes(text.as_bytes()).map_err(|e| format!("{e}"))?;
+    let ks: Vec<_> = signers.iter().map(|k| keys::key(keyspecs[*k])).collect();
+    let privs: Vec<&PrivateKey> = ks.iter().map(|k| &k.private).collect();
+    if builder_path {
+        let b = MetablockBuilder::from_metadata(meta.into_trait());
+        Ok(b.sign(&privs).map_err(|e| format!("{e}"))?.build())
+    } else {
+        Metablock::new(meta, &privs).map_err(|e| format!("{e}"))
+    }
+}
+
+pub struct CeremonyOutcome {
+    pub unsignable: Option<String>,
+    /// text after the wire and the channel faults
+    pub text: String,
+    /// (label id, valid) per signature in the final list
+    pub sig_truth: Vec<(String, bool)>,
+    pub parsed: bool,
+    pub parse_err: String,
+    /// per repetition: Ok(metadata equals block metadata) / Err(class)
+    pub results: Vec<Result<bool, String>>,
+    pub panic: Option<String>,
+    pub typed_equal_to_original: Option<bool>,
+    pub fired: Vec<String>,
+    pub wire_stats: (usize, usize),
+}
+
+pub struct Prepared {
+    pub mb: Option<Metablock>,
+    pub state3: Value,
+    pub unsignable: Option<String>,
+    pub fired: Vec<String>,
+}
+
+/// Sign once (the expensive part); independent of `ops`, `wire`, `authorized`, `threshold`.
+pub fn prepare(t: &CeremonyTrace) -> Prepared {
+    let signed = body_value(&t.body, &t.keys);
+    let mut fired = vec![];
+    let mb = match construct(&signed, &t.signers, &t.keys, t.builder_path) {
+        Ok(m) => m,
+        Err(e) => return Prepared { mb: None, state3: Value::Null, unsignable: Some(e), fired },
+    };
+    // the builder sorts by key id; keep the document's own order for everything below
+    let mut sigs: Vec<Value> = serde_json::to_value(&mb.signatures).unwrap().as_array().cloned().unwrap_or_default();
+    for r in &t.resign {
+        if let Some(k) = t.signers.get(*r) {
+            if let Ok(m2) = construct(&signed, &[*k], &t.keys, false) {
+                if let Some(s) = serde_json::to_value(&m2.signatures).unwrap().as_array().and_then(|a| a.first().cloned()) {
+                    sigs.push(s);
+                    fired.push("RESIGN".into());
+                }
+            }
+        }
+    }
+    // wire form of the block as the library writes it
+    let block_value = match serde_json::to_value(&mb) {
+        Ok(v) => v,
+        Err(e) => return Prepared { mb: None, state3: Value::Null, unsignable: Some(e.to_string()), fired },
+    };
+    let mut state3 = block_value;
+    state3["signatures"] = Value::Array(sigs);
+    Prepared { mb: Some(mb), state3, unsignable: None, fired }
+}
+
+pub fn run_ceremony(t: &CeremonyTrace) -> CeremonyOutcome {
+    finish(t, &prepare(t))
+}
+
+pub fn finish(t: &CeremonyTrace, p: &Prepared) -> CeremonyOutcome {
+    let mut out = CeremonyOutcome {
+        unsignable: p.unsignable.clone(),
+        text: String::new(),
+        sig_truth: vec![],
+        parsed: false,
+        parse_err: String::new(),
+        results: vec![],
+        panic: None,
+        typed_equal_to_original: None,
+        fired: p.fired.clone(),
+        wire_stats: (0, 0),
+    };
+    let mb = match &p.mb {
+        Some(m) => m,
+        None => return out,
+    };
+    let state3 = &p.state3;
+    let orig_pairs: BTreeSet<(String, String)> = state3["signatures"]
+        .as_array()
+        .unwrap()
+        .iter()
+        .map(|s| (s["keyid"].as_str().unwrap_or("").to_string(), s["sig"].as_str().unwrap_or("").to_string()))
+        .collect();
+    let mut cur = state3.clone();
+    for op in &t.ops {
+        if apply_op(&mut cur, op, &t.keys) {
+            out.fired.push(op_name(op).to_string());
+        }
+    }
+    let text = match &t.wire {
+        Wire::Compact => serde_json::to_string(&cur).unwrap(),
+        Wire::Pretty => serde_json::to_string_pretty(&cur).unwrap(),
+        Wire::Writer { chunked, eintr_pct } => {
+            let mut w = SimWriter::new(t.io_seed, *chunked, *eintr_pct, None);
+            match Json::to_writer(&mut w, &cur) {
+                Ok(()) => {
+                    out.wire_stats = (w.stats.short, w.stats.eintr);
+                    String::from_utf8_lossy(&w.out).to_string()
+                }
+                Err(e) => {
+                    out.unsignable = Some(format!("to_writer: {e}"));
+                    return out;
+                }
+            }
+        }
+    };
+    out.text = text.clone();
+    let content_same_value = cur["signed"] == state3["signed"];
+    let parsed: Metablock = match serde_json::from_str(&text) {
+        Ok(m) => m,
+        Err(e) => {
+            out.parse_err = e.to_string();
+            return out;
+        }
+    };
+    out.parsed = true;
+    let typed_equal = parsed.metadata == mb.metadata;
+    out.typed_equal_to_original = Some(typed_equal);
+    let content_same = content_same_value || typed_equal;
+    if let Some(a) = cur["signatures"].as_array() {
+        for s in a {
+            let id = s["keyid"].as_str().unwrap_or("").to_string();
+            let sv = s["sig"].as_str().unwrap_or("").to_string();
+            out.sig_truth.push((id.clone(), content_same && orig_pairs.contains(&(id, sv))));
+        }
+    }
+    let auth: Vec<PublicKey> = t.authorized.iter().map(|k| keys::key(t.keys[*k]).public.clone()).collect();
+    let reps = t.hash_seeds.len().max(1);
+    for rep in 0..reps {
+        let mut p = parsed.clone();
+        let mut a = auth.clone();
+        if let Some(ps) = t.perm_seeds.get(rep) {
+            if *ps != 0 {
+                let mut r = Rng::new(*ps);
+                r.shuffle(&mut p.signatures);
+                r.shuffle(&mut a);
+            }
+        }
+        let threshold = t.threshold;
+        let expect = parsed.metadata.clone();
+        let hs = t.hash_seeds.get(rep).copied().unwrap_or(1);
+        let r = exec::in_fresh_thread(hs, move || match p.verify(threshold, a.iter()) {
+            Ok(m) => Ok(m == expect),
+            Err(e) => Err(exec::err_class(&e)),
+        });
+        match r {
+            Ok(x) => out.results.push(x),
+            Err(pn) => {
+                out.panic = Some(pn);
+                break;
+            }
+        }
+    }
+    out
+}
+
+pub fn judge_ceremony(t: &CeremonyTrace, o: &CeremonyOutcome) -> Vec<Finding> {
+    let mut f = vec![];
+    if let Some(p) = &o.panic {
+        f.push(Finding { prop: "C14".into(), clause: "panic-in-block-verification".into(), detail: p.clone() });
+    }
+    if o.unsignable.is_some() || !o.parsed {
+        return f;
+    }
+    let auth_ids: BTreeSet<String> = t.authorized.iter().map(|k| keys::key(t.keys[*k]).id.clone()).collect();
+    let counting: BTreeSet<&String> = o.sig_truth.iter().filter(|(id, v)| *v && auth_ids.contains(id)).map(|(id, _)| id).collect();
+    let mut per_label: BTreeMap<&String, usize> = BTreeMap::new();
+    for (id, _) in &o.sig_truth {
+        *per_label.entry(id).or_default() += 1;
+    }
+    let once = per_label.values().all(|n| *n <= 1);
+    let enough = t.threshold >= 1 && counting.len() as u64 >= t.threshold as u64;
+    let any_ok = o.results.iter().any(|r| r.is_ok());
+    let all_ok = o.results.iter().all(|r| r.is_ok());
+    match t.mode {
+        Mode::C04 => {
+            if any_ok && !enough {
+                f.push(Finding {
+                    prop: "C04".into(),
+                    clause: "threshold-not-met-but-accepted".into(),
+                    detail: format!("threshold {} accepted with {} distinct authorized keys having a valid signature (signatures: {:?})", t.threshold, counting.len(), o.sig_truth.iter().map(|(i, v)| (&i[..8.min(i.len())], *v)).collect::<Vec<_>>()),
+                });
+            }
+            if enough && once && !all_ok {
+                f.push(Finding {
+                    prop: "C04".into(),
+                    clause: "threshold-met-but-rejected".into(),
+                    detail: format!("threshold {} with {} distinct authorized valid signers, each key signing once: {:?}", t.threshold, counting.len(), o.results),
+                });
+            }
+            if o.results.iter().any(|r| matches!(r, Ok(false))) {
+                f.push(Finding { prop: "C04".into(), clause: "returned-content-differs".into(), detail: "verify returned metadata that is not the block's metadata".into() });
+            }
+        }
+        Mode::C09 => {
+            let positive = t.labels.iter().any(|l| l == "POSITIVE");
+            if positive && !all_ok {
+                f.push(Finding {
+                    prop: "C09".into(),
+                    clause: "own-signature-rejected-after-wire".into(),
+                    detail: format!("threshold {} = number of signers, results {:?}", t.threshold, o.results),
+                });
+            }
+            if !positive && any_ok && !enough {
+                f.push(Finding {
+                    prop: "C09".into(),
+                    clause: "signature-verifies-under-substitution".into(),
+                    detail: format!("labels {:?}: accepted although only {} of {} required keys have a valid signature", t.labels, counting.len(), t.threshold),
+                });
+            }
+        }
+        Mode::C05 => {
+            // parsed value unequal to the signed one => no signer's signature may verify
+            if o.typed_equal_to_original == Some(false) && any_ok {
+                f.push(Finding {
+                    prop: "C05".into(),
+                    clause: "edited-content-still-verifies".into(),
+                    detail: format!("edit {:?}: parsed metadata differs from what was signed, yet verify(1, signer) = {:?}", t.ops, o.results),
+                });
+            }
+        }
+    }
+    f
+}
+
+fn fold(t: &CeremonyTrace, o: &CeremonyOutcome, findings: Vec<Finding>, rec: &mut RunRecord, seed: u64, index: u64, prop: &str) -> Vec<Finding> {
+    rec.evaluations += 1;
+    if o.unsignable.is_some() {
+        rec.vacuous += 1;
+        rec.vacuous_why.push(format!("unsignable: {}", o.unsignable.clone().unwrap().chars().take(100).collect::<String>()));
+    }
+    let mut d = Digest::new();
+    d.update(&rec.log_digest.to_le_bytes());
+    d.str(&format!("{:?}", o.results));
+    d.str(&format!("{:?}", o.sig_truth.iter().map(|x| x.1).collect::<Vec<_>>()));
+    d.str(if o.parsed { "parsed" } else { "unparsed" });
+    rec.log_digest = d.finish();
+    let mut sh = Digest::new();
+    sh.str(&format!(
+        "{:?}|{:?}|t{}|a{}|s{}|{:?}|{:?}|{:?}|{}",
+        t.mode,
+        t.labels,
+        t.threshold.min(9),
+        t.authorized.len(),
+        o.sig_truth.len(),
+        o.sig_truth.iter().map(|x| x.1).collect::<Vec<_>>(),
+        o.results.iter().map(|r| r.is_ok()).collect::<BTreeSet<_>>(),
+        o.typed_equal_to_original,
+        t.keys.iter().map(|k| format!("{:?}", k.kind)).collect::<BTreeSet<_>>().len()
+    ));
+    if t.mode == Mode::C05 {
+        sh.str(&format!("{:?}", t.ops));
+    }
+    rec.shapes.push((sh.finish(), !t.labels.is_empty() || !o.fired.is_empty()));
+    for (hs, ps) in t.hash_seeds.iter().zip(t.perm_seeds.iter().chain(std::iter::repeat(&0))) {
+        rec.schedules.push(hs ^ ps.rotate_left(17));
+    }
+    for l in t.labels.iter().chain(o.fired.iter()) {
+        rec.fired.push(l.clone());
+    }
+    if o.wire_stats.0 > 0 {
+        rec.fired.push("CHUNK".into());
+    }
+    if o.wire_stats.1 > 0 {
+        rec.fired.push("EINTR".into());
+    }
+    for r in &o.results {
+        rec.verdicts[if r.is_ok() { 0 } else { 1 }] += 1;
+    }
+    if o.panic.is_some() {
+        rec.verdicts[2] += 1;
+    }
+    if t.keys.iter().any(|k| !k.kind.is_ed()) {
+        rec.probe("non-ed25519 key in ceremony");
+    }
+    if !o.parsed && o.unsignable.is_none() {
+        rec.probe("document unparseable after faults");
+    }
+    if o.typed_equal_to_original == Some(true) && !t.ops.is_empty() {
+        rec.probe("edit parses to an equal value");
+    }
+    if rec.sample.is_none() {
+        rec.sample = Some(json!({
+            "seed": seed, "mode": format!("{:?}", t.mode), "labels": t.labels, "signers": t.signers.len(), "authorized": t.authorized.len(),
+            "threshold": t.threshold, "ops": t.ops, "signature_truth": o.sig_truth.iter().map(|x| x.1).collect::<Vec<_>>(),
+            "results": o.results.iter().map(|r| format!("{:?}", r)).collect::<Vec<_>>(),
+            "key_kinds": t.keys.iter().map(|k| format!("{:?}", k.kind)).collect::<Vec<_>>(),
+        }));
+    }
+    let mut own = vec![];
+    for x in findings {
+        if x.prop == prop {
+            if own.is_empty() {
+                let mut labels = t.labels.clone();
+                if t.mode == Mode::C05 {
+                    labels = vec![];
+                }
+                rec.own.push(Violation { seed, index, site: site_of(&x, &labels), finding: x.clone(), trace: Trace::Ceremony(t.clone()) });
+            }
+            own.push(x);
+        } else {
+            rec.cross.push(x);
+        }
+    }
+    own
+}
+
+fn exec_prepared(t: &CeremonyTrace, p: &Prepared, rec: &mut RunRecord, seed: u64, index: u64, prop: &str) -> Vec<Finding> {
+    let o = finish(t, p);
+    let f = judge_ceremony(t, &o);
+    fold(t, &o, f, rec, seed, index, prop)
+}
+
+fn exec_and_fold(t: &CeremonyTrace, rec: &mut RunRecord, seed: u64, index: u64, prop: &str) -> Vec<Finding> {
+    let o = run_ceremony(t);
+    let f = judge_ceremony(t, &o);
+    fold(t, &o, f, rec, seed, index, prop)
+}
+
+// ---------------------------------------------------------------------------------------------
+// generators
+// ---------------------------------------------------------------------------------------------
+pub fn gen_body(r: &mut Rng, seed: u64, keys: &mut Vec<KeySpec>) -> BodySpec {
+    if r.chance(1, 2) {
+        let mut env = None;
+        if r.chance(1, 3) {
+            env = Some(BTreeMap::from([(gen::text(r), gen::text(r)), ("k".to_string(), gen::text(r))]));
+        }
+        let mut arts = Artifacts::new();
+        for i in 0..r.below(4) {
+            arts.insert(if r.chance(1, 4) { gen::text(r) } else { format!("p{i}/f") }, gen::digest_of(r.below(50), r.chance(1, 4)));
+        }
+        let mut other = BTreeMap::new();
+        if r.chance(1, 4) {
+            other.insert(format!("x-{}", gen::simple_name(r)), gen::text(r));
+        }
+        BodySpec::Link(LinkSpec {
+            name: if r.chance(1, 3) { gen::text(r) } else { gen::simple_name(r) },
+            materials: arts.clone(),
+            products: if r.chance(1, 2) { arts } else { Artifacts::new() },
+            stdout: if r.chance(1, 8) { None } else { Some(gen::text(r)) },
+            stderr: if r.chance(1, 8) { None } else { Some(gen::text(r)) },
+            retval: if r.chance(1, 8) { None } else { Some(*r.pick(&[0i64, 1, -1, 255, i32::MAX as i64, i32::MIN as i64])) },
+            other,
+            command: (0..r.below(3)).map(|_| gen::text(r)).collect(),
+            env,
+        })
+    } else {
+        let opts = GenOpts { ed_only_pct: 60, delegation_pct: 0, max_steps: 3, ..GenOpts::default() };
+        let (t, _) = gen::baseline(seed ^ 0xc0ffee, &opts);
+        let base = keys.len();
+        keys.extend(t.keys.iter().cloned());
+        let mut l = t.root.layout.clone();
+        l.key_table = l.key_table.iter().map(|k| k + base).collect();
+        for s in l.steps.iter_mut() {
+            s.pubkeys = s.pubkeys.iter().map(|k| k + base).collect();
+            if r.chance(1, 3) {
+                s.cmd = vec![gen::text(r)];
+            }
+            if r.chance(1, 3) {
+                s.exp_mat.push(vec!["MATCH".into(), "*".into(), "IN".into(), "src".into(), "WITH".into(), "MATERIALS".into(), "IN".into(), "dst".into(), "FROM".into(), s.name.clone()]);
+                s.exp_prod.push(vec![r.pick(&["CREATE", "DELETE", "MODIFY", "ALLOW", "REQUIRE", "DISALLOW"]).to_string(), "out/*".into()]);
+            }
+        }
+        l.readme = gen::text(r);
+        BodySpec::Layout(l)
+    }
+}
+
+fn base_trace(seed: u64, tier: Tier, mode: Mode) -> (CeremonyTrace, Rng) {
+    let mut r = Rng::stream(seed, "ceremony");
+    let mut kr = Rng::stream(seed, "keys");
+    let ed_only = r.chance(if tier == Tier::Quick { 70 } else { 45 }, 100);
+    let m = 1 + r.weighted(&[35, 30, 20, 10, 5]);
+    let mut keys = keys::draw_keys(&mut kr, m + 2, ed_only, true);
+    let signers: Vec<usize> = (0..m).collect();
+    let body = gen_body(&mut r, seed, &mut keys);
+    let mut hr = Rng::stream(seed, "hash");
+    let reps = if mode == Mode::C04 { if tier == Tier::Quick { 6 } else { 16 } } else { 1 };
+    let t = CeremonyTrace {
+        mode,
+        keys,
+        body,
+        signers: signers.clone(),
+        resign: vec![],
+        builder_path: r.chance(1, 2),
+        wire: match r.below(3) {
+            0 => Wire::Compact,
+            1 => Wire::Pretty,
+            _ => Wire::Writer { chunked: r.chance(3, 4), eintr_pct: *r.pick(&[0u64, 10, 40]) },
+        },
+        ops: vec![],
+        authorized: signers,
+        threshold: m as u32,
+        hash_seeds: (0..reps).map(|_| hr.next()).collect(),
+        perm_seeds: (0..reps).map(|i| if i == 0 { 0 } else { hr.next() | 1 }).collect(),
+        io_seed: hr.next(),
+        labels: vec![],
+    };
+    (t, r)
+}
+
+pub fn run_c04(tier: Tier, seed: u64, index: u64, rec: &mut RunRecord) {
+    let (mut t, mut r) = base_trace(seed, tier, Mode::C04);
+    let m = t.signers.len();
+    let outsider = m; // keys[m], keys[m+1] are outsiders
+    // authorized set: subset / superset / duplicates / empty
+    match r.weighted(&[40, 15, 15, 15, 5, 10]) {
+        0 => {}
+        1 => {
+            let k = r.idx(m);
+            t.authorized.push(t.authorized[k]);
+            t.labels.push("AUTH-DUP".into());
+        }
+        2 => {
+            t.authorized.push(outsider);
+            t.labels.push("AUTH-SUPERSET".into());
+        }
+        3 => {
+            let k = r.idx(t.authorized.len());
+            t.authorized.remove(k);
+            t.labels.push("AUTH-SUBSET".into());
+        }
+        4 => {
+            t.authorized.clear();
+            t.labels.push("AUTH-EMPTY".into());
+        }
+        _ => {
+            t.authorized = vec![outsider, outsider + 1];
+            t.labels.push("AUTH-DISJOINT".into());
+        }
+    }
+    t.threshold = match r.weighted(&[10, 30, 30, 15, 10, 5]) {
+        0 => 0,
+        1 => 1,
+        2 => m as u32,
+        3 => m as u32 + 1,
+        4 => 1 + r.below(m as u64 + 1) as u32,
+        _ => u32::MAX,
+    };
+    // channel faults on the signature messages
+    let nf = r.weighted(&[25, 45, 20, 10]);
+    for _ in 0..nf {
+        let n = m + t.resign.len();
+        match r.below(9) {
+            0 => {
+                t.ops.push(DocOp::SigStrip(r.idx(n)));
+                t.labels.push("SIGDROP".into());
+            }
+            1 => {
+                t.ops.push(DocOp::SigDup(r.idx(n)));
+                t.labels.push("SIGDUP".into());
+            }
+            2 => {
+                t.ops.push(DocOp::SigShuffle(r.next()));
+                t.labels.push("SIGSHUF".into());
+            }
+            3 if m >= 2 => {
+                let at = r.idx(m);
+                let from = (at + 1 + r.idx(m - 1)) % m;
+                t.ops.push(DocOp::SigValueFrom { at, from });
+                t.labels.push("SIGSWAP".into());
+            }
+            4 => {
+                t.ops.push(DocOp::Relabel { at: r.idx(n), to: if r.chance(1, 2) { outsider } else { r.idx(m) } });
+                t.labels.push("RELABEL".into());
+            }
+            5 => {
+                t.ops.push(DocOp::SigFlip { at: r.idx(n), bit: r.idx(4096) });
+                t.labels.push("SIGFLIP".into());
+            }
+            6 => {
+                t.resign.push(r.idx(m));
+                t.labels.push("RESIGN".into());
+            }
+            7 => {
+                // an unauthorized party adds its own (valid) signature
+                t.signers.push(outsider + 1);
+                t.labels.push("UNAUTH-SIGNER".into());
+            }
+            _ => {
+                // strip everything
+                for _ in 0..n {
+                    t.ops.push(DocOp::SigStrip(0));
+                }
+                t.labels.push("SIGNONE".into());
+            }
+        }
+    }
+    exec_and_fold(&t, rec, seed, index, "C04");
+}
+
+pub fn run_c09(tier: Tier, seed: u64, index: u64, rec: &mut RunRecord) {
+    let (mut t, mut r) = base_trace(seed, tier, Mode::C09);
+    let m = t.signers.len();
+    // positive: must verify with threshold = number of signers
+    t.labels = vec!["POSITIVE".into()];
+    let own = exec_and_fold(&t, rec, seed, index, "C09");
+    if !own.is_empty() {
+        return;
+    }
+    if rec.vacuous > 0 {
+        return;
+    }
+    // negative 1: one authorized key replaced by another party's key
+    let mut n1 = t.clone();
+    let k = r.idx(m);
+    n1.authorized[k] = m + r.idx(2);
+    n1.labels = vec!["KEY-SUBSTITUTED".into()];
+    exec_and_fold(&n1, rec, seed, index, "C09");
+    // negative 2: single-bit flips of one signature value
+    let flips = if tier == Tier::Quick { 6 } else { 24 };
+    for _ in 0..flips {
+        let mut n2 = t.clone();
+        n2.ops.push(DocOp::SigFlip { at: r.idx(m), bit: r.idx(8 * 512) });
+        n2.labels = vec!["SIGFLIP".into()];
+        exec_and_fold(&n2, rec, seed, index, "C09");
+    }
+    // negative 3: same key material declared with another scheme (RSA-PSS 256 <-> 512)
+    for (i, s) in t.signers.clone().iter().enumerate() {
+        let other = match t.keys[*s].kind {
+            KeyKind::Rsa2048S256 => Some(KeyKind::Rsa2048S512),
+            KeyKind::Rsa2048S512 => Some(KeyKind::Rsa2048S256),
+            KeyKind::Rsa4096S256 => Some(KeyKind::Rsa4096S512),
+            KeyKind::Rsa4096S512 => Some(KeyKind::Rsa4096S256),
+            _ => None,
+        };
+        if let Some(ok) = other {
+            let mut n3 = t.clone();
+            n3.keys.push(KeySpec { kind: ok, seed: 0 });
+            let idx = n3.keys.len() - 1;
+            n3.authorized[i] = idx;
+            // present the signature under the other scheme's key id, so that it is really checked
+            n3.ops.push(DocOp::Relabel { at: i, to: idx });
+            n3.labels = vec!["SCHEME-RELABEL".into()];
+            exec_and_fold(&n3, rec, seed, index, "C09");
+            rec.probe("same RSA key material under the other PSS scheme");
+        }
+    }
+}
+
+/// The property's near-collision edits for one string.
+fn near_collisions(s: &str) -> Vec<String> {
+    let mut v = vec![];
+    if s.contains('\n') {
+        v.push(s.replacen('\n', "\\n", 1));
+    }
+    if s.contains("\\n") {
+        v.push(s.replacen("\\n", "\n", 1));
+    }
+    v.push(format!("{s}\n"));
+    v.push(format!("{s}\\n"));
+    v.push(format!("{s}\\"));
+    v.push(format!("{s}\""));
+    v.push(format!("\\{s}"));
+    v.push(format!("{s}\u{0001}"));
+    v.push(format!("{s}\t"));
+    v.push(format!("{s}\\t"));
+    v.push(format!("{s}\\u0041"));
+    v.push(format!("{s}\",\"x\":\"y"));
+    if s.len() > 1 {
+        v.push(s[..s.len() - s.chars().last().unwrap().len_utf8()].to_string());
+    }
+    v
+}
+
+pub fn run_c05(tier: Tier, seed: u64, index: u64, rec: &mut RunRecord) {
+    let (mut t, mut r) = base_trace(seed, tier, Mode::C05);
+    t.wire = if r.chance(1, 2) { Wire::Compact } else { Wire::Pretty };
+    t.threshold = 1;
+    // verify(1, [signer]) for every signer: authorized = one signer at a time is equivalent to
+    // threshold 1 over all signers (any valid signature makes it Ok)
+    let signed = body_value(&t.body, &t.keys);
+    let prepared = prepare(&t);
+    let mut ls = vec![];
+    gen::leaves(&signed, "/signed", &mut ls);
+    let _ = tier;
+    for (ptr, old) in &ls {
+        let mut edits: Vec<DocOp> = vec![];
+        // one generic mutation of the same JSON type
+        edits.push(DocOp::Set { ptr: ptr.clone(), value: gen::mutate_leaf(&mut r, old) });
+        match old {
+            Value::String(s) => {
+                for n in near_collisions(s) {
+                    edits.push(DocOp::Set { ptr: ptr.clone(), value: json!(n) });
+                }
+                edits.push(DocOp::Set { ptr: ptr.clone(), value: Value::Null });
+                edits.push(DocOp::Set { ptr: ptr.clone(), value: json!("") });
+            }
+            Value::Number(n) => {
+                if let Some(u) = n.as_u64() {
+                    edits.push(DocOp::Set { ptr: ptr.clone(), value: json!(u + 1) });
+                    if u > 0 {
+                        edits.push(DocOp::Set { ptr: ptr.clone(), value: json!(u - 1) });
+                    }
+                    edits.push(DocOp::Set { ptr: ptr.clone(), value: json!(u.to_string()) });
+                }
+            }
+            Value::Null => {
+                edits.push(DocOp::Set { ptr: ptr.clone(), value: json!({}) });
+                edits.push(DocOp::Set { ptr: ptr.clone(), value: json!({"k": "v"}) });
+            }
+            _ => {}
+        }
+        // structural: drop the member / element, duplicate it next to itself
+        edits.push(DocOp::Remove { ptr: ptr.clone() });
+        // for elements of arrays of strings: move one character across the boundary
+        if let Some(pos) = ptr.rfind('/') {
+            if let Ok(i) = ptr[pos + 1..].parse::<usize>() {
+                let parent = &ptr[..pos];
+                if let (Some(Value::String(a)), Some(Value::String(b))) = (
+                    signed.pointer(parent.strip_prefix("/signed").unwrap_or(parent)).and_then(|p| p.get(i)),
+                    signed.pointer(parent.strip_prefix("/signed").unwrap_or(parent)).and_then(|p| p.get(i + 1)),
+                ) {
+                    if !a.is_empty() {
+                        let c = a.chars().last().unwrap();
+                        let a2: String = a[..a.len() - c.len_utf8()].to_string();
+                        let b2 = format!("{c}{b}");
+                        // two edits in one op list
+                        let mut tt = t.clone();
+                        tt.ops = vec![
+                            DocOp::Set { ptr: format!("{parent}/{i}"), value: json!(a2) },
+                            DocOp::Set { ptr: format!("{parent}/{}", i + 1), value: json!(b2) },
+                        ];
+                        tt.labels = vec!["ARRAY-BOUNDARY".into()];
+                        exec_prepared(&tt, &prepared, rec, seed, index, "C05");
+                    }
+                }
+                // duplicate the element
+                edits.push(DocOp::Set { ptr: format!("{parent}/{}", 99999), value: old.clone() });
+            } else {
+                // object member: swap key and value when both are strings; rename the key
+                if let Value::String(v) = old {
+                    let parent = &ptr[..pos];
+                    let key = ptr[pos + 1..].replace("~1", "/").replace("~0", "~");
+                    let mut tt = t.clone();
+                    let esc = v.replace('~', "~0").replace('/', "~1");
+                    tt.ops = vec![DocOp::Remove { ptr: ptr.clone() }, DocOp::Set { ptr: format!("{parent}/{esc}"), value: json!(key) }];
+                    tt.labels = vec!["KEY-VALUE-SWAP".into()];
+                    exec_prepared(&tt, &prepared, rec, seed, index, "C05");
+                }
+            }
+        }
+        for e in edits {
+            let mut tt = t.clone();
+            tt.ops = vec![e];
+            tt.labels = vec!["EDIT".into()];
+            exec_prepared(&tt, &prepared, rec, seed, index, "C05");
+        }
+    }
+}
+
+pub fn replay(prop: &str, t: &CeremonyTrace, rec: &mut RunRecord) -> Vec<Finding> {
+    exec_and_fold(t, rec, 0, 0, prop)
+}
+
+pub fn minimise(prop: &str, clause: &str, t: &CeremonyTrace) -> (CeremonyTrace, bool) {
+    let still = |c: &CeremonyTrace| {
+        let o = run_ceremony(c);
+        judge_ceremony(c, &o).iter().any(|f| f.prop == prop && f.clause == clause)
+    };
+    let mut cur = t.clone();
+    let mut changed = false;
+    for _ in 0..200 {
+        let mut cands: Vec<CeremonyTrace> = vec![];
+        for i in 0..cur.ops.len() {
+            let mut c = cur.clone();
+            c.ops.remove(i);
+            cands.push(c);
+        }
+        if cur.hash_seeds.len() > 1 {
+            let mut c = cur.clone();
+            c.hash_seeds.truncate(cur.hash_seeds.len() / 2);
+            c.perm_seeds.truncate(cur.hash_seeds.len() / 2);
+            cands.push(c);
+        }
+        if !cur.resign.is_empty() {
+            let mut c = cur.clone();
+            c.resign.pop();
+            cands.push(c);
+        }
+        if cur.wire != Wire::Compact {
+            let mut c = cur.clone();
+            c.wire = Wire::Compact;
+            cands.push(c);
+        }
+        if cur.builder_path {
+            let mut c = cur.clone();
+            c.builder_path = false;
+            cands.push(c);
+        }
+        // simplify the body
+        match &cur.body {
+            BodySpec::Link(l) => {
+                let mut l2 = l.clone();
+                l2.materials.clear();
+                l2.products.clear();
+                l2.env = None;
+                l2.other.clear();
+                l2.command.clear();
+                if l2 != *l {
+                    let mut c = cur.clone();
+                    c.body = BodySpec::Link(l2);
+                    cands.push(c);
+                }
+                for field in 0..3 {
+                    let mut l3 = l.clone();
+                    match field {
+                        0 => l3.stdout = Some(String::new()),
+                        1 => l3.stderr = Some(String::new()),
+                        _ => l3.name = "n".into(),
+                    }
+                    if l3 != *l {
+                        let mut c = cur.clone();
+                        c.body = BodySpec::Link(l3);
+                        cands.push(c);
+                    }
+                }
+            }
+            BodySpec::Layout(l) => {
+                for si in 0..l.steps.len() {
+                    let mut l2 = l.clone();
+                    l2.steps.remove(si);
+                    let mut c = cur.clone();
+                    c.body = BodySpec::Layout(l2);
+                    cands.push(c);
+                }
+                if !l.readme.is_empty() {
+                    let mut l2 = l.clone();
+                    l2.readme.clear();
+                    let mut c = cur.clone();
+                    c.body = BodySpec::Layout(l2);
+                    cands.push(c);
+                }
+            }
+        }
+        let mut progress = false;
+        for c in cands {
+            if c != cur && still(&c) {
+                cur = c;
+                changed = true;
+                progress = true;
+                break;
+            }
+        }
+        if !progress {
+            break;
+        }
+    }
+    (cur, changed)
+}
